@@ -63,6 +63,9 @@ func HarnessC14Caps(st any) {
 		case 5: // Blob
 			code := sym.Int("code", 200, 599)
 			n := sym.Choose("n", 4)
+			if sym.Bool("preset") {
+				c.SetHeader("Content-Type", "text/preset") // e.g. a middleware default: the helper is given its own type
+			}
 			err := c.Blob(code, "application/x-test", []byte("xyz")[:n])
 			sym.Assert(err == nil, "Blob succeeds")
 			sym.Assert(len(g.finals) == 1 && g.finals[0] == code, "Blob sends exactly the given status")
@@ -72,6 +75,9 @@ func HarnessC14Caps(st any) {
 		case 6: // Stream
 			code := sym.Int("code", 200, 599)
 			n := sym.Choose("n", 4)
+			if sym.Bool("preset") {
+				c.SetHeader("Content-Type", "text/preset")
+			}
 			err := c.Stream(code, "text/x-test", &source{data: []byte("xyz")[:n]})
 			sym.Assert(err == nil, "Stream succeeds")
 			sym.Assert(len(g.finals) == 1 && g.finals[0] == code, "Stream sends exactly the given status")
